@@ -73,7 +73,7 @@ Fixpoint lookup (t : table) (k : string) : option fentry :=
   end.
 
 Fixpoint keys (t : table) : list string :=
-  match t with [] => [] | (k, _) :: r => if existsb (String.eqb k) (keys r) then keys r else k :: keys r end.
+  match t with [] => [] | (k, _) :: r => let ks := keys r in if existsb (String.eqb k) ks then ks else k :: ks end.
 
 (* values of DEFAULT_VARIABLES *)
 Inductive constant := KNpE | KNpPi | KComplex (re im : Z).
